@@ -663,7 +663,32 @@ class SD:
                 continue
             if res[0] != "raise" or not eng.exc.is_sub(res[1], PARSE_ERR):
                 rfail.setdefault(f"{po.qual}:malformed", f"malformed body {data.hex()!r} gives {res!r}; expected ParseError")
-        run.abstract_cases += len(good) * 2 + len(bad)
+        # text outside ASCII: whatever the decoder accepts must survive decode - encode - decode (a multi-byte codec whose
+        # length prefix counts characters emits bytes that decode to something else, or not at all)
+        for items in ([b"\xc3\xa9a"], [b"k=\xc3\xbc"], [b"\xd6"], [b"\xc3\xa9" + b"k" * 3, b"z"]):
+            data = body(items)
+            try:
+                res = self._eval_config_parse(po, rps, buf, data, q)
+            except (UnicodeDecodeError, UnicodeEncodeError):
+                continue  # rejected while decoding the text
+            if res == "deeper" or res[0] != "ok":
+                continue  # rejected (UnicodeDecodeError / ParseError): nothing to re-encode
+            try:
+                again = self._eval_config_build(bd, wps, me, res[1])
+            except Exception as exc:  # the writer refuses what the reader accepted
+                rfail.setdefault(f"{po.qual}:non-ascii-text-cycle", f"body {data.hex()} decodes to {res[1]!r}, which cannot be encoded again ({type(exc).__name__})")
+                continue
+            if again is None:
+                continue
+            try:
+                res2 = self._eval_config_parse(po, rps, buf, bytes(again)[3:], q)
+            except (UnicodeDecodeError, UnicodeEncodeError) as exc:
+                res2 = ("raise", type(exc).__name__)
+            if res2 != res:
+                rfail.setdefault(f"{po.qual}:non-ascii-text-cycle",
+                                 f"body {data.hex()} decodes to {res[1]!r}; re-encoded as {bytes(again)[3:].hex()} it decodes to {res2!r}: "
+                                 "the length prefix does not count the encoded bytes")
+        run.abstract_cases += len(good) * 2 + len(bad) + 4
         for k, msg in rfail.items():
             run.ob(rule_r, k, False, loc(po), msg)
         if not rfail:
